@@ -3,8 +3,11 @@
 From Coq Require Import String ZArith List Bool Permutation.
 From ME Require Import Model.Prelude Model.Regex Model.ChordParse Gen.ChordRe Gen.ChordTables
   Proofs.RegexLang Proofs.RegexEquiv Proofs.ChordRegex Proofs.ChordQualities Proofs.ChordSound Proofs.ChordTotal Proofs.ChordRoundTrip.
+From ME Require Import Model.PyStr Model.PyStrChord Gen.ChordParseGen Proofs.ChordParseTie.
+From ME Require Model.ChordPipeline Model.ChordCmp.
 Import ListNotations.
 Open Scope Z_scope.
+
 
 (* acceptance by validate_chord_label (CHORD_RE.match, translated from the source on every run) coincides with the
    documented Harte syntax root[:shorthand][(degrees)][/bass] plus N and X, for every string *)
@@ -71,3 +74,91 @@ Print Assumptions C10_split_join_roundtrip.
 Theorem C10_split_join_X_is_excluded : split X_CHORD false = Ok (X_CHORD, s_maj, [], s_one) /\ join X_CHORD s_maj [] s_one = Raise InvalidChord.
 Proof. exact split_join_X_counterexample. Qed.
 Print Assumptions C10_split_join_X_is_excluded.
+(* --- tie by TRANSLATION of the parser / encoder itself: Gen/ChordParseGen.v is regenerated from chord.py on every run (translator/chordparse.py, *)
+(* Python-string language Model/PyStr.v); each function is proved equal to the model function for ALL strings, flags and exception classes --- *)
+Theorem C10_signatures_as_assumed :
+  chord_sigs =
+         [("pitch_class_to_semitone", Some [("pitch_class", None)]);
+          ("scale_degree_to_semitone", Some [("scale_degree", None)]);
+          ("scale_degree_to_bitmap",
+           Some
+             [("scale_degree", None); ("modulo", Some (VBool false));
+              ("length", Some (VInt (Z.of_nat BITMAP_LENGTH)))]);
+          ("quality_to_bitmap", Some [("quality", None)]);
+          ("reduce_extended_quality", Some [("quality", None)]);
+          ("validate_chord_label", Some [("chord_label", None)]);
+          ("split", Some [("chord_label", None); ("reduce_extended_chords", Some (VBool false))]);
+          ("join",
+           Some
+             [("chord_root", None); ("quality", Some (VStr [])); ("extensions", Some VNone);
+              ("bass", Some (VStr []))]);
+          ("encode",
+           Some
+             [("chord_label", None); ("reduce_extended_chords", Some (VBool false));
+              ("strict_bass_intervals", Some (VBool false))]);
+          ("encode_many", Some [("chord_labels", None); ("reduce_extended_chords", Some (VBool false))]);
+          ("rotate_bitmap_to_root", Some [("bitmap", None); ("chord_root", None)]);
+          ("CHORD_RE.match", Some [("string", None)])].
+Proof. exact (@chord_sigs_expected). Qed.
+Print Assumptions C10_signatures_as_assumed.
+Theorem C10_pitch_class_to_semitone_source_is_model :
+  forall (sord : list str -> list str) (s : str),
+         run sord gen_pitch_class_to_semitone [VStr s] = lift VInt (pitch_class_to_semitone s).
+Proof. exact (@pitch_class_to_semitone_tie). Qed.
+Print Assumptions C10_pitch_class_to_semitone_source_is_model.
+Theorem C10_scale_degree_to_semitone_source_is_model :
+  forall (sord : list str -> list str) (s : str),
+         run sord gen_scale_degree_to_semitone [VStr s] = lift VInt (scale_degree_to_semitone s).
+Proof. exact (@scale_degree_to_semitone_tie). Qed.
+Print Assumptions C10_scale_degree_to_semitone_source_is_model.
+Theorem C10_scale_degree_to_bitmap_source_is_model :
+  forall (sord : list str -> list str) (s : str) (m : bool),
+         run sord gen_scale_degree_to_bitmap [VStr s; VBool m; VInt (Z.of_nat BITMAP_LENGTH)] =
+         lift VArr (scale_degree_to_bitmap s m).
+Proof. exact (@scale_degree_to_bitmap_tie). Qed.
+Print Assumptions C10_scale_degree_to_bitmap_source_is_model.
+Theorem C10_quality_to_bitmap_source_is_model :
+  forall (sord : list str -> list str) (q : str),
+         run sord gen_quality_to_bitmap [VStr q] = lift VArr (quality_to_bitmap q).
+Proof. exact (@quality_to_bitmap_tie). Qed.
+Print Assumptions C10_quality_to_bitmap_source_is_model.
+Theorem C10_reduce_extended_quality_source_is_model :
+  forall (sord : list str -> list str) (q : str),
+         run sord gen_reduce_extended_quality [VStr q] = OK (v_redux (reduce_extended_quality q)).
+Proof. exact (@reduce_extended_quality_tie). Qed.
+Print Assumptions C10_reduce_extended_quality_source_is_model.
+Theorem C10_validate_chord_label_source_is_model :
+  forall (sord : list str -> list str) (s : str),
+         run sord gen_validate_chord_label [VStr s] = lift v_unit (validate_label s).
+Proof. exact (@validate_chord_label_tie). Qed.
+Print Assumptions C10_validate_chord_label_source_is_model.
+Theorem C10_split_source_is_model :
+  forall (sord : list str -> list str) (s : str) (red : bool),
+         run sord gen_split [VStr s; VBool red] = lift v_split (split s red).
+Proof. exact (@split_tie). Qed.
+Print Assumptions C10_split_source_is_model.
+Theorem C10_join_source_is_model :
+  forall (sord : list str -> list str) (rt q : str) (exts : list str) (b : str),
+         run sord gen_join [VStr rt; VStr q; v_strs exts; VStr b] = lift VStr (join rt q exts b).
+Proof. exact (@join_tie). Qed.
+Print Assumptions C10_join_source_is_model.
+(* for every iteration order of the scale-degree set *)
+Theorem C10_encode_source_is_model :
+  forall sord : list str -> list str,
+         (forall l : list str, Permutation (sord l) l) ->
+         forall (s : str) (red strict : bool),
+         run sord gen_encode [VStr s; VBool red; VBool strict] = lift v_enc (encode s red strict).
+Proof. exact (@encode_tie). Qed.
+Print Assumptions C10_encode_source_is_model.
+Theorem C10_encode_many_source_is_model :
+  forall (sord : list str -> list str) (labels : list str) (red : bool),
+         run sord gen_encode_many [v_strs labels; VBool red] =
+         lift v_encs (ChordPipeline.encode_many labels red).
+Proof. exact (@encode_many_tie). Qed.
+Print Assumptions C10_encode_many_source_is_model.
+Theorem C10_rotate_bitmap_to_root_source_is_model :
+  forall (sord : list str -> list str) (b : list Z) (rt : Z),
+         Datatypes.length b = 12%nat ->
+         run sord gen_rotate_bitmap_to_root [VArr b; VInt rt] = OK (VArr (ChordCmp.rot b rt)).
+Proof. exact (@rotate_bitmap_to_root_tie). Qed.
+Print Assumptions C10_rotate_bitmap_to_root_source_is_model.
